@@ -1212,6 +1212,13 @@ class Interp:
                 return self.dict_method(base, m, args, kwargs)
             if isinstance(base, list) and m == "sort":
                 keyf = kwargs.get("key")
+                if isinstance(keyf, PyFunc):
+                    keys = [keyf.fn(item) for item in base]
+                    if all(isinstance(k, (int, float)) and not isinstance(k, bool) for k in keys) or all(isinstance(k, str) and not k.startswith("<") for k in keys):
+                        order = sorted(range(len(keys)), key=lambda i: keys[i], reverse=bool(kwargs.get("reverse", False)))
+                        base[:] = [base[i] for i in order]
+                        return None
+                    raise Unsupported("list.sort with keys the interpreter cannot order")
                 if isinstance(keyf, Closure) and len(keyf.node.args.args) == 1:
                     keys = []
                     for item in base:
